@@ -1,4 +1,4 @@
-\* c4mand2
+\* thorough: mandatory sessions 4,2 (default session not a candidate)
 SPECIFICATION Spec
 CONSTANTS
   Cand <- Cand234
